@@ -118,7 +118,7 @@ def gen_series(rnd, kind):
 
 
 SERIES_KINDS = ["plateau", "plateau", "ends-mid-run", "before-start", "last-on-start", "covers-run", "starts-late", "single", "duplicate-dates"]
-BOUNDARY_PHASES = [0, 1, 79, 80, 81, 359, 360, 361, -1, -360, 720]
+BOUNDARY_PHASES = [0, 1, 79, 80, 81, 200, 359, 360, 361, -1, -360, 720]
 
 
 def prepare(ctx):
@@ -131,6 +131,7 @@ def prepare(ctx):
     if os.path.exists(mark):
         return ex, json.load(open(mark))
     rnd = random.Random(ctx.seed)
+    poly = {("ex3", "10001"): (10, 30), ("ex3", "10002"): (10, 30)}      # shipped poly_ex3.txt
     for proj in ("zuc", "rue"):
         p = os.path.join(ex, "project", proj, "poly_%s.txt" % proj)
         out = []
@@ -138,9 +139,23 @@ def prepare(ctx):
             t = ln.split()
             if len(t) >= 6 and t[0].isdigit():
                 hi_, lo_ = rnd.sample(range(6, 19), 2)        # GH, GL in dm, either order
+                if proj == "zuc" and t[0] == "10002":
+                    lo_ = hi_                                  # GH == GL: no oscillation
                 ln = re.sub(r"^(\S+\s+\S+\s+\S+\s+)\S+(\s+)\S+", lambda m: "%s%d%s%d" % (m.group(1), hi_, m.group(2), lo_), ln)
+                poly[(proj, t[0])] = (hi_, lo_)
             out.append(ln)
         open(p, "w").write("\n".join(out))
+    # a series for project zuc (GroundWaterFrom=2 on the batch line; dates ddmmyyyy)
+    with open(os.path.join(ex, "project", "zuc", "gw_zuc.csv"), "w") as f:
+        f.write("SID,DATE,Level\n001,01081980,%.1f\n001,15101980,%.1f\n001,01031981,%.1f\n001,01091981,%.1f\n" % tuple(round(rnd.uniform(6, 20), 1) for _ in range(4)))
+    # static levels of the soil files (GroundWaterFrom soilfile): csv column GroundWaterLevel of ex3's soil 075, txt columns [70:72] of ex1's soil 075
+    soil_level = {}
+    for ln in open(os.path.join(ex, "project", "ex3", "soil_ex3.csv")).read().split("\n"):
+        if ln.startswith("075,") and "ex3" not in soil_level:
+            soil_level["ex3"] = float(ln.split(",")[-1])
+    for ln in open(os.path.join(ex, "project", "ex1", "soil_ex1.txt")).read().split("\n"):
+        if ln.startswith("075 ") and "ex1" not in soil_level:
+            soil_level["ex1"] = float(ln[70:72])
     # configured phases: the sinusoid's period is 360 and the phase is any integer
     conf = {"zuc": rnd.randint(-400, -1), "rue": rnd.randint(365, 800)}
     nrep = 6 if ctx.thorough else 1
@@ -165,7 +180,10 @@ def prepare(ctx):
 
     def add(base, fmt, extra, end_year, what):
         end = ("1231%d" if fmt == "EN" else "3112%d") % end_year
-        mode = "@gw=series" if "project=ex3 " in base else "@gw=polygon"       # GroundWaterFrom of the project's config.yml
+        mode = "" if "@gw=" in extra else "@gw=series" if "project=ex3 " in base else "@gw=polygon"       # GroundWaterFrom of the project's config.yml
+        pj, plot = re.search(r"project=(\S+)", base).group(1), re.search(r"plotNr=(\S+)", base + " " + extra).group(1)
+        if "@gw=polygon" in mode + extra and (pj, plot) in poly:
+            mode += " @poly=%d,%d" % poly[(pj, plot)]
         lines.append({"line": "%s %s EndDate=%s resultfolder=R/c20_%d %s" % (base, extra, end, len(lines), mode), "what": what})
     ex3, zuc, rue = TRACE[0][0], TRACE[1][0], TRACE[2][0]
     add(ex3, "EN", "", endy, {"series": "shipped"})
@@ -180,6 +198,22 @@ def prepare(ctx):
         for j, gid in enumerate(pr):
             add(ex3, "EN", ("gwId=%s " % gid if gid else "") + "@session=%d" % k, 1981,
                 {"series": "pair-in-one-session", "id": gid or "075", "position": j + 1, "with": pr[1 - j] or "075 (no gwId)"})
+    # configuration sweep: ONE key away from the project's configuration per run
+    ex1 = "project=ex1 WeatherFolder=historical soilId=075 fcode=109_120 plotNr=10001 Altitude=73 Latitude=52.6732 poligonID=29872"
+    zuc2 = zuc.replace("plotNr=10001", "plotNr=10002")
+    sweep = [(ex3, "EN", "GroundWaterFrom=0 @gw=polygon @phase=80", "GroundWaterFrom=0 (polygonfile) on the batch line, csv soil"),
+             (ex3, "EN", "GroundWaterFrom=1 @gw=soil:%s" % soil_level["ex3"], "GroundWaterFrom=1 (soilfile) on the batch line, csv soil GW column"),
+             (ex1, "EN", "@gw=soil:%s" % soil_level["ex1"], "soilfile source, txt soil GW column"),
+             (ex1, "EN", "GroundWaterPhase=0 @gw=soil:%s" % soil_level["ex1"], "phase given although the source is the soil file"),
+             (zuc, "DE", "GroundWaterFrom=2 @gw=series", "GroundWaterFrom=2 (gwTimeSeries) on the batch line, txt soil, own gw_zuc.csv"),
+             (zuc2, "DE", "@config-phase=80 @phase=80", "polygon file GH == GL"),
+             (ex3, "EN", "gwId=NOPE @expect=error:not_found", "unknown gwId: run error"),
+             (ex3, "EN", "fileExtension=txt", "fileExtension override (gw file stays gw_<project>.csv)"),
+             (ex3, "EN", "GroundWaterPhase=200", "phase given although the source is the series"),
+             (ex3, "EN", "PTF=2", "PTF=2 with a series"), (zuc, "DE", "AutoIrrigation=0 @config-phase=200 @phase=200", "AutoIrrigation=0, phase 200"),
+             (zuc, "DE", "GroundWaterPhase=200 @config-phase=17 @phase=200", "phase 200 on the batch line")]
+    for base, fmt, extra, why in sweep:
+        add(base, fmt, extra, 1981, {"sweep": why, "series": "sweep" if "@gw=series" in extra or ("project=ex3" in base and "@gw=" not in extra) else None})
     add(zuc, "DE", "@config-phase=%d @phase=%d" % (conf["zuc"], conf["zuc"]), endy, {"phase": conf["zuc"], "via": "config.yml"})
     add(rue, "DE", "@config-phase=%d @phase=%d" % (conf["rue"], conf["rue"]), endy, {"phase": conf["rue"], "via": "config.yml"})
     # the boundary phases, each from config.yml and from the command line (the config then holds another value)
@@ -241,8 +275,14 @@ def correspond(ctx):
         return c
     runs = [x for x in rows if x["k"] == "run"]
     for r_ in runs:
+        if r_.get("expect_error"):
+            if r_["success"] or r_["expect_error"].replace("_", " ") not in r_["err"]:
+                c.mismatches.append({"kind": "run-error-expected", "run": r_, "line": plan[r_["line"]]["line"]})
+            continue
         if not r_["success"] or r_["days"] == 0:
-            c.mismatches.append({"kind": "traced-run-failed", "run": r_})
+            c.mismatches.append({"kind": "traced-run-failed", "run": r_, "line": plan[r_["line"]]["line"]})
+        if r_.get("soil_level_mismatch_days") or r_.get("polygon_level_mismatch_days"):
+            c.mismatches.append({"kind": "groundwater level is not the soil file's / polygon file's value", "run": r_, "line": plan[r_["line"]]["line"]})
         if r_.get("source_mismatch_days"):
             c.mismatches.append({"kind": "groundwater-source (the run does not use the configured GroundWaterFrom)", "run": r_,
                                  "line": plan[r_["line"]]["line"]})
@@ -307,6 +347,8 @@ def correspond(ctx):
                       "duplicate_dates": len(t["dates"]) - len(set(t["dates"])), "starts": "after-last" if t["q"][0] > last else
                       "on-last" if t["q"][0] == last else "before-last", "last_segment_flat": flat})
     ctx.extra["traced_series_coverage"] = cover
+    ctx.extra["configuration_sweep"] = [{"what": plan[r_["line"]]["what"]["sweep"], "source_used": r_["from"], "days": r_["days"],
+                                         "run_error": r_["err"][:80]} for r_ in runs if plan[r_["line"]]["what"].get("sweep")]
     # the daily comparison must not be vacuous about the end of the series (seeded change C20-3)
     need = {"passes the end of a non-flat series": any(x["days_from_last_date_on"] > 0 and x["starts"] == "before-last" and not x["last_segment_flat"] and x["records"] > 1 for x in cover),
             "starts after the last date": any(x["starts"] == "after-last" for x in cover),
